@@ -23,8 +23,12 @@ RULE = ("Coq: Properties/C17.v over EditAlgebra.v + Lex.v (for ALL sources: whit
         "are given to the extracted Coq checker (op gapcheck): each edit must lie in a whitespace run, replace "
         "whitespace by whitespace and satisfy the glue condition; the model's edit application must reproduce the "
         "phase output and the model's token/comment sequence must be unchanged. Phase 0 (signature wrapping, which "
-        "rewrites tokens and adds a trailing comma) is validated by (1) only. A case is non-trivial when the "
-        "formatter changed the text.")
+        "rewrites tokens and adds a trailing comma) is validated by (1) only. An edit outside the (sufficient) "
+        "conditions is a violation when it removes or inserts non-whitespace or when the model lexer's token/comment "
+        "sequence changes; when only the glue / step-boundary condition fails and the sequence is unchanged it is "
+        "counted in the stats (e.g. `x:Int` -> `x: Int`: the inserted space is followed by a letter). Inputs with CR "
+        "line ends are classified separately (`crlf-input:`): the formatter re-terminates lines with LF. A case is "
+        "non-trivial when the formatter changed the text.")
 META = {
     "technique": ("Coq proof over the lexer model (Lex.v) and an edit algebra + per-run translation validation of the "
                   "real formatter's edits by the extracted checker + AST/comment comparison of input vs output on "
@@ -36,8 +40,12 @@ META = {
                    "comment texts of Lex.lex unchanged; edits_in_gaps_preserve_tokens -- the same for a list of such "
                    "edits applied in descending offset order; line_indent_edit_in_gap -- re-indenting a line whose start "
                    "is a lexer step boundary (not inside a token or comment) preserves the sequence; "
-                   "line_indent_edit_refuted -- without that hypothesis it does not (multi-line string). The glue "
-                   "condition is SUFFICIENT, not claimed exact. NOT PROVED: that format.rs's edits satisfy these "
+                   "line_indent_edit_refuted -- without that hypothesis it does not (multi-line string); "
+                   "kstep_is_lex_step -- the position-free step function the conditions use is Lex.lex_step at every "
+                   "offset of every source. The conditions also exclude sources that start with `#` (shebang) and "
+                   "edits placed after an unclosed string, an unterminated final comment or a string closed only by "
+                   "the end of the text. The glue condition is SUFFICIENT, not claimed exact (it rejects e.g. `x:Int` "
+                   "-> `x: Int`, which is harmless). NOT PROVED: that format.rs's edits satisfy these "
                    "conditions -- this is checked PER RUN by the driver on the edits the real formatter produced "
                    "(translation validation), and phases 0-6 as algorithms (AST visitor, signature wrapping, blank "
                    "lines) are not modelled. NOT PROVED: 'same token texts + same layout facts => same syntax tree'; "
